@@ -212,6 +212,14 @@ func workerCall(c CaseB) (o outcomeB) {
 		return outcomeB{Kind: "fault", Msg: "harness: building the arguments failed: " + r.Msg}
 	}
 	r := ev.Try(func() slip.Object {
+		switch c.Via {
+		case "funcall":
+			// (funcall <function object> arg...): the argument forms are evaluated by funcall
+			return slip.NewFunc("funcall", append(slip.List{fi}, args...)).Eval(scope, 0)
+		case "apply":
+			// (apply <function object> (list arg...))
+			return slip.NewFunc("apply", slip.List{fi, slip.NewFunc("list", args)}).Eval(scope, 0)
+		}
 		return slip.NewFunc(c.Pkg+"::"+c.Fn, args).Eval(scope, 0)
 	})
 	o.Kind, o.Class, o.Msg = r.Kind, r.Class, r.Msg
